@@ -265,11 +265,14 @@ def apply_damage(data, meta, dmg):
 ENTRY_RE = re.compile(rb"\d{10} \d{5} [nf]( \r| \n|\r\n)")
 
 
-def table_wellformed(data, start):
-    """Independent syntax check of a classic xref section starting at `start` (ISO 32000-1 7.5.4)."""
+def table_wellformed(data, start, need_keyword=True):
+    """Independent syntax check of a classic xref section starting at `start` (ISO 32000-1 7.5.4).  With
+    need_keyword=False the section may start at a subsection header (a startxref offset pointing into the table)."""
     m = re.compile(rb"xref[ \t]*(\r\n|\r|\n)").match(data, start)
     if not m:
-        return False
+        if need_keyword:
+            return False
+        m = re.compile(rb"[ \t\r\n]*").match(data, start)
     pos = m.end()
     nsub = 0
     while True:
@@ -335,7 +338,15 @@ def run_damage(case):
         v = dmg["value"]
         if v.isdigit() and int(v) == meta["startxref"]:
             return Outcome(classes + ["damage-noop"], False)
-    if dmg["kind"] != "startxref" and table_wellformed(bad, meta["xref_spans"][0][0]):
+    lying = dmg["kind"] != "startxref" and table_wellformed(bad, meta["xref_spans"][0][0])
+    if dmg["kind"] == "startxref" and dmg["value"].isdigit():
+        v = int(dmg["value"])
+        (a, b) = meta["xref_spans"][0]
+        # an offset that points at a later subsection header of the same table: what follows parses as a (partial) table
+        nxt = re.compile(rb"[^\r\n]*(\r\n|\r|\n)").match(bad, v)
+        lying = a < v < b and (table_wellformed(bad, v, need_keyword=False) or
+                               (nxt is not None and table_wellformed(bad, nxt.end(), need_keyword=False)))
+    if lying:
         # the table still parses but lies (wrong offsets, or cut exactly at a subsection boundary): pdfminer takes
         # no body scan then -- known finding xref-wrong-offset
         classes.append("table-wellformed-but-wrong")
